@@ -215,7 +215,7 @@ impl Check for C12 {
     }
 
     fn rule(&self) -> String {
-        "each seeded run has 2-6 prover nodes and 3+ verifier nodes that each draw their own generator capacity >= m (powers of two up to 32): every message (valid or deliberately corrupted) is verified alone by >= 3 nodes of different capacity in all three modes and inside 2-5 batches whose members' statements carry different capacities; generator vectors of 2-3 capacity pairs are compared position by position; one evaluation = one verify_batch call or one generator comparison; non-trivial = a prover/verifier capacity pair that actually differed; distinct = distinct event-log hashes".into()
+        "each seeded run has 2-6 prover nodes and 3+ verifier nodes that each draw their own generator capacity >= m (powers of two up to 32): every message (valid or deliberately corrupted) is verified alone by >= 3 nodes of different capacity in all three modes and inside 2-5 batches whose members' statements carry different capacities (one run in ten adds a batch of 257-514 honest members of mixed aggregation factors); generator vectors of 2-3 capacity pairs are compared position by position; one evaluation = one verify_batch call or one generator comparison; non-trivial = a prover/verifier capacity pair that actually differed; distinct = distinct event-log hashes".into()
     }
 
     fn assumptions(&self) -> Vec<String> {
